@@ -33,11 +33,12 @@ type c17Op struct {
 	kind    string // write | overwrite-false | append | read | exists
 	path    int
 	content int
+	flag    int // spelling of the third argument: 0 literal, 1 variable, 2 comparison, 3 exists(path) where its value is the wanted one
 }
 
 func TestC17(t *testing.T) {
 	r, e := start(t, "C17",
-		"random histories (<= 12 operations quick, <= 30 thorough) of write(p,s), write(p,s,false), write(p,s,true), read(p) (only where the model says p exists) and exists(p) over 2-4 paths drawn from {plain, sub-directory, blank, double blank, leading dash, ;, *, $, ', leading blank, &} and contents from {neutral, empty, edge blanks, blank runs, quotes, $, $(cmd), backquote, backslash, glob, -n, tab, shell metacharacters, #, embedded newline, !, %}; the whole history is one generated program, values literal or held in variables read from stdin, half the time executed inside a function with paths/contents as parameters. Oracle: model map[path][]line: file bytes = lines joined by newline + newline, read = lines joined, exists = key present; the sandbox afterwards holds exactly the model's files. Non-trivial = append after overwrite after append on one path, or >= 2 paths with a non-plain path or content; distinct by history.",
+		"random histories (<= 12 operations quick, <= 30 thorough) of write(p,s), write(p,s,false), write(p,s,true) (the flag spelled as a literal, a variable, a comparison or exists(p) where that has the wanted value), read(p) (only where the model says p exists) and exists(p) over 2-4 paths drawn from {plain, sub-directory, blank, double blank, leading dash, ;, *, $, ', leading blank, &} and contents from {neutral, empty, edge blanks, blank runs, quotes, $, $(cmd), backquote, backslash, glob, -n, tab, shell metacharacters, #, embedded newline, !, %}; the whole history is one generated program, values literal or held in variables read from stdin, half the time executed inside a function with paths/contents as parameters. Oracle: model map[path][]line: file bytes = lines joined by newline + newline, read = lines joined, exists = key present; the sandbox afterwards holds exactly the model's files. Non-trivial = append after overwrite after append on one path, or >= 2 paths with a non-plain path or content; distinct by history.",
 		[]string{"reading a missing file is outside the statement (never generated)", "contents ending in a newline are not generated (read strips trailing newlines by definition)", "values containing $, backquote, double quote or backslash are supplied at run time through input(): as source literals they fall under the listed C08 finding"})
 	defer r.Flush()
 	maxOps := e.Pick(12, 30)
@@ -73,7 +74,7 @@ func TestC17(t *testing.T) {
 				kinds = append(kinds, "read", "read")
 			}
 			k := kinds[gen.Uniform(0, len(kinds)-1).Draw(t, "op-kind")]
-			op := c17Op{kind: k, path: p, content: gen.Uniform(0, len(c17Contents)-1).Draw(t, "content")}
+			op := c17Op{kind: k, path: p, content: gen.Uniform(0, len(c17Contents)-1).Draw(t, "content"), flag: gen.Uniform(0, 3).Draw(t, "flag-spelling")}
 			ops = append(ops, op)
 			path := c17Paths[p].p
 			switch k {
@@ -124,6 +125,20 @@ func TestC17(t *testing.T) {
 		}
 		expOut := ""
 		cur := map[string][]string{}
+		flagVars := false
+		flagExpr := func(op c17Op, want bool, pe string) string {
+			_, there := cur[c17Paths[op.path].p]
+			switch {
+			case op.flag == 1:
+				flagVars = true
+				return map[bool]string{true: "fyes", false: "fno"}[want]
+			case op.flag == 2:
+				return map[bool]string{true: "len(" + pe + ") > 0", false: "len(" + pe + ") == 0"}[want]
+			case op.flag == 3 && there == want:
+				return "exists(" + pe + ")"
+			}
+			return map[bool]string{true: "true", false: "false"}[want]
+		}
 		for _, op := range ops {
 			if op.kind == "exists-dir" {
 				body.WriteString("print(\"exists\", exists(\"sub\"), exists(\"nosuchdir\"))\n")
@@ -139,11 +154,11 @@ func TestC17(t *testing.T) {
 				cur[path] = []string{c17Contents[op.content].s}
 			case "overwrite-false":
 				ce := valueRef("c", op.content, c17Contents[op.content].s)
-				body.WriteString("write(" + pe + ", " + ce + ", false)\n")
+				body.WriteString("write(" + pe + ", " + ce + ", " + flagExpr(op, false, pe) + ")\n")
 				cur[path] = []string{c17Contents[op.content].s}
 			case "append":
 				ce := valueRef("c", op.content, c17Contents[op.content].s)
-				body.WriteString("write(" + pe + ", " + ce + ", true)\n")
+				body.WriteString("write(" + pe + ", " + ce + ", " + flagExpr(op, true, pe) + ")\n")
 				cur[path] = append(cur[path], c17Contents[op.content].s)
 			case "read":
 				body.WriteString("print(\"<\" + read(" + pe + ") + \">\")\n")
@@ -158,6 +173,9 @@ func TestC17(t *testing.T) {
 			}
 		}
 		var src strings.Builder
+		if flagVars {
+			src.WriteString("fyes := true\nfno := 1 > 2\n")
+		}
 		src.WriteString(decl.String())
 		if inFunc {
 			src.WriteString("func run(" + strings.Join(params, ", ") + ") {\n")
@@ -194,6 +212,9 @@ func TestC17(t *testing.T) {
 				}
 			}
 			r.Class("op:"+op.kind, "path:"+c17Paths[op.path].class)
+			if op.kind == "append" || op.kind == "overwrite-false" {
+				r.Class(fmt.Sprintf("flag-spelling:%d", op.flag))
+			}
 			if op.kind != "read" && op.kind != "exists" {
 				r.Class("content:" + c17Contents[op.content].class)
 			}
